@@ -78,16 +78,57 @@ struct Cfg {
     n2: u64,
     n12: u64,
     t: u64,
+    /// how the sketch of a set comes about: 0 one pass; 1 a merge with an incompatible sketcher (larger rate a, big set) is
+    /// attempted - and refused - halfway through; 2 the sketcher was used on another set and reinit'ed; 3 two sketchers
+    /// take half of the stream each and are merged
+    history: u8,
 }
 
-fn sketch_range<I>(params: SetSketchParams, ranges: &[(u64, u64)]) -> Vec<I>
+fn sketch_range<I>(params: SetSketchParams, ranges: &[(u64, u64)], history: u8) -> Vec<I>
 where
     I: num::Integer + num::ToPrimitive + num::FromPrimitive + num::Bounded + Copy + Clone + std::fmt::Debug,
 {
-    let mut sk = SetSketcher::<I, u64, FnvHasher>::new(params, BuildHasherDefault::<FnvHasher>::default());
-    for (lo, hi) in ranges {
-        for x in *lo..*hi {
-            sk.sketch(&x).unwrap();
+    let newsk = |p: SetSketchParams| SetSketcher::<I, u64, FnvHasher>::new(p, BuildHasherDefault::<FnvHasher>::default());
+    let mut sk = newsk(params);
+    let items: Vec<u64> = ranges.iter().flat_map(|(lo, hi)| *lo..*hi).collect();
+    let half = items.len() / 2;
+    match history {
+        1 => {
+            let mut other = newsk(SetSketchParams::new(params.get_b(), params.get_m(), params.get_a() * 1e5, params.get_q()));
+            for x in 0..3000u64 {
+                other.sketch(&(x ^ 0x7777_0000_0000)).unwrap();
+            }
+            for x in &items[..half] {
+                sk.sketch(x).unwrap();
+            }
+            assert!(sk.merge(&other).is_err());
+            for x in &items[half..] {
+                sk.sketch(x).unwrap();
+            }
+        }
+        2 => {
+            for x in 0..3000u64 {
+                sk.sketch(&(x ^ 0x5555_0000_0000)).unwrap();
+            }
+            sk.reinit();
+            for x in &items {
+                sk.sketch(x).unwrap();
+            }
+        }
+        3 => {
+            let mut sk2 = newsk(params);
+            for x in &items[..half] {
+                sk.sketch(x).unwrap();
+            }
+            for x in &items[half..] {
+                sk2.sketch(x).unwrap();
+            }
+            sk.merge(&sk2).unwrap();
+        }
+        _ => {
+            for x in &items {
+                sk.sketch(x).unwrap();
+            }
         }
     }
     sk.get_signature().clone()
@@ -104,12 +145,12 @@ fn empirical(cfg: &Cfg, base: u64) -> Vec<f64> {
             let ra = [(o, o + cfg.n1), (o + cfg.n1 + cfg.n2, o + u)];
             let rb = [(o + cfg.n1, o + cfg.n1 + cfg.n2), (o + cfg.n1 + cfg.n2, o + u)];
             let eq = if cfg.wide {
-                let sa = sketch_range::<u32>(params, &ra);
-                let sb = sketch_range::<u32>(params, &rb);
+                let sa = sketch_range::<u32>(params, &ra, cfg.history);
+                let sb = sketch_range::<u32>(params, &rb, 0);
                 sa.iter().zip(sb.iter()).filter(|(x, y)| x == y).count()
             } else {
-                let sa = sketch_range::<u16>(params, &ra);
-                let sb = sketch_range::<u16>(params, &rb);
+                let sa = sketch_range::<u16>(params, &ra, cfg.history);
+                let sb = sketch_range::<u16>(params, &rb, 0);
                 sa.iter().zip(sb.iter()).filter(|(x, y)| x == y).count()
             };
             eq as f64 / cfg.m as f64
@@ -135,7 +176,7 @@ fn run_cfg(cfg: &Cfg, base: u64) -> EmpOut {
 }
 
 fn cfg_json(c: &Cfg) -> Value {
-    json!({"b": c.b, "a": c.a, "q": c.q, "m": c.m, "wide": c.wide, "n1": c.n1, "n2": c.n2, "n12": c.n12, "t": c.t})
+    json!({"b": c.b, "a": c.a, "q": c.q, "m": c.m, "wide": c.wide, "n1": c.n1, "n2": c.n2, "n12": c.n12, "t": c.t, "history": c.history})
 }
 
 fn cfg_from_json(v: &Value) -> Result<Cfg, String> {
@@ -149,6 +190,7 @@ fn cfg_from_json(v: &Value) -> Result<Cfg, String> {
         n2: v["n2"].as_u64().ok_or("n2")?,
         n12: v["n12"].as_u64().ok_or("n12")?,
         t: v["t"].as_u64().ok_or("t")?,
+        history: v["history"].as_u64().unwrap_or(0) as u8,
     })
 }
 
@@ -169,14 +211,24 @@ fn collision_configs(quick: bool) -> Vec<Cfg> {
                 let item_budget: u64 = if quick { 6_000_000 } else { 120_000_000 };
                 t = t.min((item_budget / u.max(1)).max(16));
                 let wide = (ti + (m as usize)) % 2 == 1;
-                out.push(Cfg { b, a: 20., q, m, wide, n1, n2, n12, t });
+                out.push(Cfg { b, a: 20., q, m, wide, n1, n2, n12, t, history: 0 });
             }
         }
     }
     // deliberately clipping configurations (the model covers clipping)
     for &(b, q, a) in &[(2.0f64, 3u64, 20.0f64), (1.2, 10, 20.), (2.0, 62, 0.5), (2.0, 3, 1.0), (1.2, 6, 0.5), (2.0, 1, 0.3)] {
         for &(n1, n2, n12) in &[(100u64, 100u64, 100u64), (1, 50, 5), (0, 0, 3), (1, 1, 1), (3, 2, 1), (1, 0, 1)] {
-            out.push(Cfg { b, a, q, m: 64, wide: false, n1, n2, n12, t: if quick { 4000 } else { 40_000 } });
+            out.push(Cfg { b, a, q, m: 64, wide: false, n1, n2, n12, t: if quick { 4000 } else { 40_000 }, history: 0 });
+        }
+    }
+    // the sketch of the first set comes about through a history (refused merge halfway, reuse after reinit, merge of halves)
+    for history in 1..=3u8 {
+        for &(b, q) in &[(1.001f64, 65534u64), (2.0, 62)] {
+            for &(n1, n2, n12) in &[(100u64, 100u64, 100u64), (300, 300, 0), (5, 3, 2)] {
+                for &m in &[64u64, 1024] {
+                    out.push(Cfg { b, a: 20., q, m, wide: history == 2, n1, n2, n12, t: (if quick { 200_000 } else { 2_000_000 }) / m, history });
+                }
+            }
         }
     }
     out
@@ -415,7 +467,7 @@ pub fn run(ctx: &Ctx) -> i32 {
     let coverage = json!({
         "evaluations": calls + admissible + pairs,
         "distinct_nontrivial": calls + admissible,
-        "rule": "(3) totality: every collision fraction k/m for m<=2048 (12000) plus bands near 0 and 1 for m up to 2^32 and 3x4096 neighbouring floats, for 8 values of b in (1,2]: the real get_jaccard_bounds must return with lo<=hi+1e-9 (each k/m,b is a distinct case); (2) bracket: all triples over {0,1,2,3,5,10,30,100,1e3,1e4,1e6}^3 x 8 b admissible by the clip precondition: model collision probability in, real bounds out, lo-1e-4<=J<=hi+1e-4; (1) collisions: T disjoint labellings of each set shape by consecutive identifiers of a seeded block, real sketcher, mean collision fraction vs the closed-form model within 6 standard errors, confirmed on a 4x larger fresh block before reporting",
+        "rule": "(3) totality: every collision fraction k/m for m<=2048 (12000) plus bands near 0 and 1 for m up to 2^32 and 3x4096 neighbouring floats, for 8 values of b in (1,2]: the real get_jaccard_bounds must return with lo<=hi+1e-9 (each k/m,b is a distinct case); (2) bracket: all triples over {0,1,2,3,5,10,30,100,1e3,1e4,1e6}^3 x 8 b admissible by the clip precondition: model collision probability in, real bounds out, lo-1e-4<=J<=hi+1e-4; (1) collisions: T disjoint labellings of each set shape by consecutive identifiers of a seeded block, real sketcher, mean collision fraction vs the closed-form model within 6 standard errors, confirmed on a 4x larger fresh block before reporting; 36 of the configurations build the first sketch through a history (a merge with an incompatible sketcher attempted and refused halfway through the stream, reuse after reinit, merge of two half-stream sketchers)",
         "samples": [
             {"totality": {"b": 1.001, "jac": "999976/1000000"}},
             {"bracket": {"b": 1.2, "n1": 100, "n2": 1000, "n12": 30}},
